@@ -98,7 +98,7 @@ def gen_layout(rng, members, feature):
         lay["nonminimal"] = True
     elif feature == "big-solid":
         BIG_ROT[0] += 1
-        lay["folders"] = [(["copy", "deflate", "lzma2", "bzip2"][BIG_ROT[0] % 4], streams)] if streams else []
+        lay["folders"] = [(["copy", "deflate", "deflate64", "lzma2", "bzip2"][BIG_ROT[0] % 5], streams)] if streams else []
     elif feature == "combo":
         lay["packcrc"] = rng.random() < 0.5
         lay["dummy"] = rng.choice([0, 0, 2, 5])
